@@ -141,15 +141,26 @@ func ruleParseBodyTotal(w *World, r *Run, ruleB, ruleD string) {
 					for _, d := range calls(s, decodeMethods...) {
 						decArgs = append(decArgs, d.Args...)
 					}
-					for i, rl := range rls {
-						if i == 0 {
-							continue // the size line
-						}
+					var sizeArgs []*Term
+					for _, c := range calls(s, "strconv.ParseUint", "strconv.ParseInt", "strconv.Atoi", "strings.CutPrefix", "strings.HasPrefix", "strings.TrimPrefix", "bytes.CutPrefix", "bytes.HasPrefix", "bytes.TrimPrefix") {
+						sizeArgs = append(sizeArgs, c.Args...)
+					}
+					for _, rl := range rls {
 						line := res(rl, 0)
 						if kk, v, _ := eqConstFact(s, mk("len", "", 0, types.Typ[types.Int], line), "0"); kk && v {
 							continue // the separator
 						}
 						used := false
+						for _, a := range sizeArgs {
+							if a != nil && mentions(a, line) {
+								used = true // (a fragment of) the size line
+							}
+						}
+						for _, f := range s.Facts {
+							if x := assertsEmpty(f); x != nil && mentions(x, line) {
+								used = true // part of a joined line found empty: the separator
+							}
+						}
 						for _, a := range decArgs {
 							if a != nil && mentions(a, line) {
 								used = true
@@ -161,11 +172,11 @@ func ruleParseBodyTotal(w *World, r *Run, ruleB, ruleD string) {
 								used = true
 							}
 						}
-						r.Check(used, ruleD, fnParseBody+" | every proof line read is decoded", w.pos(rl.Pos), "a line read between the size line and the blank separator is not handed to the base64 decoder on this path: it is consumed and ignored (a proof line that is not base64 is accepted, hashes that were written are not returned)")
+						r.Check(used, ruleD, fnParseBody+" | every proof line read is decoded", w.pos(rl.Pos), "a line read between the size line and the blank separator is not handed to the base64 decoder on this path: it is consumed and ignored (a proof line that is not base64 is accepted, hashes that were written are not returned); path: "+pathString(e, s))
 					}
 				}
 				// proof list
-				dec := calls(s, "(*encoding/base64.Encoding).DecodeString")
+				dec := calls(s, "(*encoding/base64.Encoding).DecodeString", "(*encoding/base64.Encoding).Decode", "(*encoding/base64.Encoding).AppendDecode")
 				pt := s.Rets[1]
 				var elems []*Term
 				for pt.Kind == "append" {
@@ -182,7 +193,7 @@ func ruleParseBodyTotal(w *World, r *Run, ruleB, ruleD string) {
 				}
 				good = len(elems) == len(dec) && (pt.Kind == "alloc" || pt.Kind == "nil" || pt.Kind == "zero" || pt.Kind == "varargs" && len(pt.Args) == 0)
 				for i := range elems {
-					if i < len(dec) && elems[i] != res(dec[i], 0) {
+					if i < len(dec) && !isDecodedValue(elems[i], dec[i]) {
 						good = false
 					}
 				}
@@ -190,15 +201,21 @@ func ruleParseBodyTotal(w *World, r *Run, ruleB, ruleD string) {
 				// each decode is of a whole line read from the body (no partial line), however it travelled
 				for _, d := range dec {
 					okLine := false
+					src := d.Args[0]
+					if strings.HasSuffix(d.Callee, ").Decode") && len(d.Args) == 2 {
+						src = d.Args[1] // Decode(dst, src)
+					} else if strings.HasSuffix(d.Callee, ").AppendDecode") && len(d.Args) == 2 {
+						src = d.Args[1]
+					}
 					for _, rl := range calls(s, "(*bufio.Reader).ReadLine", "(*bufio.Reader).ReadString", "(*bufio.Reader).ReadBytes") {
-						if mentions(d.Args[0], res(rl, 0)) {
+						if mentions(src, res(rl, 0)) {
 							okLine = true
 						}
 					}
-					if anySub(d.Args[0], func(t *Term) bool { return t.Kind == "slice" && (t.Args[1] != nil || t.Args[2] != nil) }) {
+					if anySub(src, func(t *Term) bool { return t.Kind == "slice" && (t.Args[1] != nil || t.Args[2] != nil) }) {
 						okLine = false
 					}
-					r.Check(okLine, ruleD, fnParseBody+" | proof line decoded whole", w.pos(d.Pos), "base64 decoding is applied to "+short(d.Args[0].String())+", not to a whole line read from the body")
+					r.Check(okLine, ruleD, fnParseBody+" | proof line decoded whole", w.pos(d.Pos), "base64 decoding is applied to "+short(src.String())+", not to a whole line read from the body")
 				}
 				// size result derives from the first line
 				r.Check(s.Rets[0].Kind != "const" && s.Rets[0].Kind != "zero", ruleD, fnParseBody+" | old size comes from the size line", w.pos(s.RetPos), "old size result is the constant "+short(s.Rets[0].String()))
@@ -315,6 +332,18 @@ func ruleParseBodyTotal(w *World, r *Run, ruleB, ruleD string) {
 	if nRL == 0 {
 		r.Info(ruleE, fnParseBody+" | ReadLine", "", "parseBody no longer uses ReadLine")
 	}
+}
+
+// isDecodedValue: t is what the decode call produced: the result of DecodeString/AppendDecode, or buf[:n] for
+// n, err := enc.Decode(buf, src).
+func isDecodedValue(t *Term, dec Event) bool {
+	if t == res(dec, 0) && !strings.HasSuffix(dec.Callee, ").Decode") {
+		return true
+	}
+	if strings.HasSuffix(dec.Callee, ").Decode") && len(dec.Args) == 2 && t != nil && t.Kind == "slice" && len(t.Args) == 3 {
+		return t.Args[0] == dec.Args[0] && t.Args[1] == nil && t.Args[2] == res(dec, 0)
+	}
+	return false
 }
 
 // copiesElements: an append whose elements are of basic type (bytes): append(dst, src...) copies src's contents.
